@@ -1,4 +1,4 @@
-(* M11: afkak/_group.py:50-524 (Coordinator) and 659-887 (ConsumerGroup) as a state machine
+(* M11: afkak/_group.py:50-538 (Coordinator) and 673-901 (ConsumerGroup) as a state machine
      step : state -> event -> state * list output
    over the CONTRACT of the partition Consumer (afkak/consumer.py:289-464; the Consumer itself is model M10):
      start(OFFSET_COMMITTED) returns a Deferred that may later fail (the attribute _start_d stays set until stop());
@@ -57,19 +57,19 @@ Record consumer := mkC { c_id : Z; c_topic : Z; c_part : Z; c_gen : Z; c_mem : Z
                          c_failed : bool (* its start Deferred has already failed; _start_d still set *) }.
 Record shc := mkSh { sh_c : consumer; sh_done : bool (* its shutdown Deferred fired ok: the consumer has stopped *) }.
 
-(* suspension points of _join_and_sync, _group.py:457-504 *)
+(* suspension points of _join_and_sync, _group.py:467-518 *)
 Inductive gphase :=
-| GLookup (rid : Z)          (* :460 waiting for the coordinator lookup *)
-| GMeta (rid : Z)            (* :460 lookup Deferred chained on load_metadata_for_topics (:151-153) *)
-| GPrepare (l : list shc)    (* :466 waiting for on_join_prepare = shutdown_consumers' DeferredList (:767) *)
-| GJoin (rid : Z)            (* :467 *)
-| GParts (rid : Z)           (* :485 *)
-| GSync (rid : Z).           (* :492 *)
+| GLookup (rid : Z)          (* :470 waiting for the coordinator lookup *)
+| GMeta (rid : Z)            (* :470 lookup Deferred chained on load_metadata_for_topics (:153-155) *)
+| GPrepare (l : list shc)    (* :476 waiting for on_join_prepare = shutdown_consumers' DeferredList (:781) *)
+| GJoin (rid : Z)            (* :479 *)
+| GParts (rid : Z)           (* :497 *)
+| GSync (rid : Z).           (* :506 *)
 Record gen := mkGen { g_id : Z; g_ph : gphase }.
 
-(* suspension points of ConsumerGroup.stop (:876) and Coordinator.stop (:288) *)
+(* suspension points of ConsumerGroup.stop (:890) and Coordinator.stop (:290) *)
 Inductive sphase := S1 (l : list shc) | S2 (rid : Z).
-Record stopi := mkStop { st_idx : Z (* index of the API stop() call, -1 = the internal self.stop() of :412 *);
+Record stopi := mkStop { st_idx : Z (* index of the API stop() call, -1 = the internal self.stop() of :414 *);
                          st_err : option ekind (* errback_result *); st_ph : sphase }.
 
 Record state := mkS {
@@ -127,7 +127,7 @@ Definition set_escaped (x : bool) (s : state) : state := mkS (is_group s) (membe
 Definition set_stop_called (x : bool) (s : state) : state := mkS (is_group s) (member s) (generation s) (coord_known s) (start_d s) (n_start s) (n_stop s) (rejoin_needed s) (stopping s) (stop_requested s) (dc s) (rejoin_d s) (hb_running s) (hb_req s) (gens s) (next_gen s) (stops s) (timers s) (next_timer s) (next_rid s) (consumers s) (next_cid s) (cur_assign s) (escaped s) x (tail_done s).
 Definition set_tail_done (x : bool) (s : state) : state := mkS (is_group s) (member s) (generation s) (coord_known s) (start_d s) (n_start s) (n_stop s) (rejoin_needed s) (stopping s) (stop_requested s) (dc s) (rejoin_d s) (hb_running s) (hb_req s) (gens s) (next_gen s) (stops s) (timers s) (next_timer s) (next_rid s) (consumers s) (next_cid s) (cur_assign s) (escaped s) (stop_called s) x.
 
-Definition init (grp : bool) : state :=     (* __init__, _group.py:59-102, 717-724 *)
+Definition init (grp : bool) : state :=     (* __init__, _group.py:59-104, 731-738 *)
   mkS grp 0 (-1) false None 0 0 true false false DcNone None false None [] 0 [] [] 0 0 [] 0 [] false false false.
 
 Inductive lookup_res := LBroker | LNone | LFail (k : ekind).
@@ -169,7 +169,7 @@ Fixpoint take_first {A} (p : A -> bool) (l : list A) : option (A * list A) :=
               else match take_first p r with Some (y, r') => Some (y, x :: r') | None => None end
   end.
 
-(* ---- shutdown lists (the local current_consumers of one shutdown_consumers call, _group.py:741) ---- *)
+(* ---- shutdown lists (the local current_consumers of one shutdown_consumers call, _group.py:755) ---- *)
 Definition sh_has (cid : Z) (l : list shc) : bool :=
   existsb (fun x => (c_id (sh_c x) =? cid) && negb (sh_done x)) l.
 Definition sh_mark_done (cid : Z) (l : list shc) : list shc :=
@@ -183,7 +183,7 @@ Definition sh_fail (cid : Z) (l : list shc) : list shc := map (fun x => mkSh (c_
 Definition sh_can_fail (cid : Z) (l : list shc) : bool :=
   existsb (fun x => (c_id (sh_c x) =? cid) && negb (sh_done x) && negb (c_failed (sh_c x))) l.
 
-(* dict-of-lists order: self.consumers.setdefault(topic, []).append(c), flattened topic by topic (:841, :744-745) *)
+(* dict-of-lists order: self.consumers.setdefault(topic, []).append(c), flattened topic by topic (:855, :758-759) *)
 Fixpoint insert_by {A} (key : A -> Z) (x : A) (l : list A) : list A :=
   match l with
   | [] => [x]
@@ -194,31 +194,34 @@ Definition group_by_topic (asg : list (Z * Z)) : list (Z * Z) :=
   fold_left (fun acc tp => insert_by fst tp acc) asg [].
 
 (* ---- consumers ---- *)
-(* stop_consumers :781-800 = on_group_leave :802-808 (Coordinator.on_group_leave :506-511 only logs) *)
+(* stop_consumers :795-814 = on_group_leave :816-822 (Coordinator.on_group_leave :520-525 only logs) *)
 Definition on_group_leave : act := fun s =>
   if is_group s then (set_consumers [] s, map (fun c => OStopC (c_id c)) (consumers s)) else (s, []).
 
-(* the first half of shutdown_consumers :740-765: take self.consumers, call shutdown() on each *)
+(* the first half of shutdown_consumers :754-779: take self.consumers, call shutdown() on each *)
 Definition begin_shutdown (s : state) : list shc * state * list output :=
   (map (fun c => mkSh c false) (consumers s), set_consumers [] s, map (fun c => OShutC (c_id c)) (consumers s)).
+
+(* Coordinator._stop_pending :463-465 (ConsumerGroup.stop sets _stop_requested before it waits for its consumers) *)
+Definition stop_pend (s : state) : bool := stopping s || stop_requested s.
 
 (* ---- the join generator ---- *)
 Definition add_gen (g : gen) (s : state) : state := set_gens (g :: gens s) s.
 
-(* send_join_group_request :159-188 issued from generator gid, which then waits at :467 *)
+(* send_join_group_request :161-190 issued from generator gid, which then waits at :479 *)
 Definition send_join (gid : Z) : act :=
   fresh_rid (fun rid s => (add_gen (mkGen gid (GJoin rid)) s, [OJoin rid (member s)])).
-(* send_sync_group_request :190-205, generator waits at :492 *)
+(* send_sync_group_request :192-207, generator waits at :506 *)
 Definition send_sync (gid : Z) (leader : bool) : act :=
   fresh_rid (fun rid s => (add_gen (mkGen gid (GSync rid)) s, [OSync rid (generation s) (member s) leader])).
 
-(* cleanup_rejoin_d :443-445 - runs whenever ANY _join_and_sync generator finishes *)
+(* cleanup_rejoin_d :449-451 - runs whenever ANY _join_and_sync generator finishes *)
 Definition gen_end : act := upd (set_rejoin_d None).
 
-(* except branch of shutdown_consumers :768-778: stop every consumer of the list that still has _start_d *)
+(* except branch of shutdown_consumers :782-792: stop every consumer of the list that still has _start_d *)
 Definition stop_pending (l : list shc) : list output := map OStopC (sh_pending_ids l).
 
-(* d.cancel() on self._rejoin_d (:292-294) when it is the Deferred of generator gid *)
+(* d.cancel() on self._rejoin_d (:294-296) when it is the Deferred of generator gid *)
 Definition cancel_gen (gid : Z) : act := fun s =>
   match take_first (fun g => g_id g =? gid) (gens s) with
   | None => (s, [])                                    (* the generator is running right now: nothing to cancel *)
@@ -227,21 +230,22 @@ Definition cancel_gen (gid : Z) : act := fun s =>
       match g_ph g with
       | GLookup rid | GMeta rid | GParts rid =>        (* CancelledError is raised inside the generator: it dies; *)
           (emit (OCancelReq rid) ;; gen_end) s         (* rejoin_d_errback only logs it (not a KafkaError) *)
-      | GJoin rid | GSync rid =>                       (* rejoin_after_error(:392-394) turns it into None: generator returns *)
+      | GJoin rid | GSync rid =>                       (* rejoin_after_error(:394-396) turns it into None: generator returns *)
           (emit (OCancelReq rid) ;; gen_end) s
-      | GPrepare l =>                                  (* DeferredList.cancel -> first shutdown Deferred fails -> :768-778 stops every
-                                                          consumer, shutdown_consumers RETURNS NORMALLY, so :467 sends JoinGroup *)
-          (emits (stop_pending l) ;; send_join gid) s
+      | GPrepare l =>                                  (* DeferredList.cancel -> first shutdown Deferred fails -> :782-792 stops every
+                                                          consumer, shutdown_consumers returns normally; the caller (Coordinator.stop
+                                                          :294-296) has _stopping set, so _stop_pending() at :477 ends the generator *)
+          (emits (stop_pending l) ;; gen_end) s
       end
   end.
 
 (* ---- stop ---- *)
-(* end of a stop() call: `finally` of ConsumerGroup.stop :878-879, then its Deferred fires *)
+(* end of a stop() call: `finally` of ConsumerGroup.stop :892-893, then its Deferred fires *)
 Definition finish_stop (st : stopi) (code : Z) : act := fun s =>
   (if is_group s then set_stop_requested false s else s,
    if 0 <=? st_idx st then [OStopD (st_idx st) code] else []).
 
-(* Coordinator.stop :292-307, after the leave-group exchange *)
+(* Coordinator.stop :294-309, after the leave-group exchange *)
 Definition stop_tail (st : stopi) : act := fun s =>
   let (s1, o1) := match rejoin_d s with
                   | Some gid => cancel_gen gid (set_rejoin_d None s)
@@ -262,28 +266,28 @@ Definition remove_timer (id : Z) (s : state) : state :=
 (* LoopingCall.stop() on the heartbeat looper *)
 Definition hb_stop : act := fun s => (set_hb_running false s, [OCancelTimer THeartbeat 0]).
 
-(* Coordinator.stop :263-290 *)
+(* Coordinator.stop :265-292 *)
 Definition coord_stop (st : stopi) : act := fun s =>
   match start_d s with
-  | None => finish_stop st 1 s                                        (* :265-266 RestopError *)
+  | None => finish_stop st 1 s                                        (* :267-268 RestopError *)
   | Some _ =>
-      if stopping s then finish_stop st 1 s                           (* :268-269 RestopError *)
+      if stopping s then finish_stop st 1 s                           (* :270-271 RestopError *)
       else
-        let s := set_rejoin_needed false (set_stopping true s) in     (* :273-274 *)
+        let s := set_rejoin_needed false (set_stopping true s) in     (* :275-276 *)
         match dc s with
-        | DcStale => finish_stop st 2 s                               (* :276 cancel() of a dead call raises *)
+        | DcStale => finish_stop st 2 s                               (* :278 cancel() of a dead call raises *)
         | _ =>
-            let (s, o1) := match dc s with                            (* :275-276 *)
+            let (s, o1) := match dc s with                            (* :277-278 *)
                            | DcActive id => (set_dc DcStale (remove_timer id s), [OCancelTimer TRejoin id])
                            | _ => (s, []) end in
-            let (s, o2) := match hb_req s with                        (* :278-279 -> _handle_heartbeat_failure(:330-333) *)
+            let (s, o2) := match hb_req s with                        (* :280-281 -> _handle_heartbeat_failure(:332-335) *)
                            | Some rid =>
                                let s := set_hb_req None s in
                                if hb_running s then let (s', o) := hb_stop s in (s', OCancelReq rid :: o)
                                else (s, [OCancelReq rid])             (* AssertionError inside the errback: swallowed *)
                            | None => (s, []) end in
-            let (s, o3) := if hb_running s then hb_stop s else (s, []) in   (* :281-283 *)
-            if coord_known s && negb (member s =? 0) then             (* :286-290 *)
+            let (s, o3) := if hb_running s then hb_stop s else (s, []) in   (* :283-285 *)
+            if coord_known s && negb (member s =? 0) then             (* :288-292 *)
               let rid := next_rid s in
               (set_stops (mkStop (st_idx st) (st_err st) (S2 rid) :: stops s) (set_next_rid (rid + 1) s),
                o1 ++ o2 ++ o3 ++ [OLeave rid (member s)])
@@ -291,64 +295,67 @@ Definition coord_stop (st : stopi) : act := fun s =>
         end
   end.
 
-(* self.stop(errback_result): ConsumerGroup.stop :864-879 or Coordinator.stop *)
+(* self.stop(errback_result): ConsumerGroup.stop :878-893 or Coordinator.stop *)
 Definition do_stop (idx : Z) (err : option ekind) : act := fun s =>
   if is_group s then
-    let s := set_stop_requested true s in                             (* :874 *)
+    let s := set_stop_requested true s in                             (* :888 *)
     match consumers s with
-    | [] => coord_stop (mkStop idx err (S2 0)) s                      (* :876 nothing to wait for, :877 *)
+    | [] => coord_stop (mkStop idx err (S2 0)) s                      (* :890 nothing to wait for, :891 *)
     | _ :: _ => let '(l, s, o) := begin_shutdown s in
                 (set_stops (mkStop idx err (S1 l) :: stops s) s, o)
     end
   else coord_stop (mkStop idx err (S2 0)) s.
 
-(* ---- rejoin_after_error :352-420 ---- *)
+(* ---- rejoin_after_error :354-426 ---- *)
 Definition new_timer (k : tkind) (d : delay) (f : Z -> state -> state) : act := fun s =>
   let id := next_timer s in
   (f id (set_timers ((id, k) :: timers s) (set_next_timer (id + 1) s)), [OSched k d id]).
 
 Definition schedule_rejoin (d : delay) : act := fun s =>
-  let s := set_rejoin_needed true s in                                (* :415-416 *)
+  let s := set_rejoin_needed true s in                                (* :421-422 *)
   match dc s with
-  | DcNone => new_timer TRejoin d (fun id => set_dc (DcActive id)) s  (* :417-420 *)
+  | DcNone => new_timer TRejoin d (fun id => set_dc (DcActive id)) s  (* :423-426 *)
   | _ => (s, [])
   end.
 
-Definition fatal (k : ekind) : act := on_group_leave ;; do_stop (-1) (Some k).   (* :408-413 *)
+Definition fatal (k : ekind) : act := on_group_leave ;; do_stop (-1) (Some k).   (* :410-415 *)
+
+(* :417-419: while stop() is leaving the group nothing is scheduled *)
+Definition resched (d : delay) : act := fun s => if stopping s then (s, []) else schedule_rejoin d s.
 
 Definition rejoin_after_error (k : ekind) : act :=
   match k with
-  | KRebalance => schedule_rejoin DRetry
-  | KCna | KNotCoord => emit OReset ;; schedule_rejoin DRetry
-  | KIllGen => on_group_leave ;; schedule_rejoin DRetry
-  | KInvGroup | KUnkMember => on_group_leave ;; upd (set_member 0) ;; schedule_rejoin DRetry
-  | KInconsistent => schedule_rejoin DFatal
-  | KTimeout => on_group_leave ;; emit OReset ;; schedule_rejoin DFatal
+  | KRebalance => resched DRetry
+  | KCna | KNotCoord => emit OReset ;; resched DRetry
+  | KIllGen => on_group_leave ;; resched DRetry
+  | KInvGroup | KUnkMember => on_group_leave ;; upd (set_member 0) ;; resched DRetry
+  | KInconsistent => resched DFatal
+  | KTimeout => on_group_leave ;; emit OReset ;; resched DFatal
   | KCancelled => fun s => if stopping s then (s, []) else fatal KCancelled s
-  | KOtherKafka => schedule_rejoin DFatal
+  | KOtherKafka => resched DFatal
   | KNonKafka => fatal KNonKafka
   end.
 
-(* the generator raised k: cleanup_rejoin_d, then rejoin_d_errback :447-451 *)
+(* the generator raised k: cleanup_rejoin_d, then rejoin_d_errback :453-457 *)
 Definition gen_fail (k : ekind) : act :=
   gen_end ;; (if is_kafka k then rejoin_after_error k else upd (set_escaped true)).
 
-(* ---- join_and_sync :422-455, ConsumerGroup.join_and_sync :881-887 ---- *)
+(* ---- join_and_sync :428-461, ConsumerGroup.join_and_sync :895-901 ---- *)
 Definition join_and_sync : act := fun s =>
   if is_group s && stop_requested s then
     (match dc s with DcActive _ => s | _ => set_dc DcNone s end, [])
   else
-    let s := set_dc DcNone s in                                       (* :430-431 *)
-    if negb (rejoin_needed s) then (s, [])                            (* :433-435 *)
+    let s := set_dc DcNone s in                                       (* :436-437 *)
+    if negb (rejoin_needed s) then (s, [])                            (* :439-441 *)
     else match rejoin_d s with
-         | Some _ => (s, [])                                          (* :438-441 *)
-         | None =>                                                    (* :453 _join_and_sync() runs to :460 *)
+         | Some _ => (s, [])                                          (* :444-447 *)
+         | None =>                                                    (* :459 _join_and_sync() runs to :470 *)
              let gid := next_gen s in let rid := next_rid s in
              (set_rejoin_d (Some gid) (add_gen (mkGen gid (GLookup rid))
                 (set_next_gen (gid + 1) (set_next_rid (rid + 1) s))), [OLookup rid])
          end.
 
-(* on_join_prepare :810-817 then :467 *)
+(* on_join_prepare :824-831 then :477-479 (reached with _stop_pending() false: without consumers nothing runs in between) *)
 Definition prepare_and_join (gid : Z) : act := fun s =>
   if is_group s then
     match consumers s with
@@ -357,12 +364,12 @@ Definition prepare_and_join (gid : Z) : act := fun s =>
     end
   else send_join gid s.
 
-(* reset_heartbeat_timer :252-261 *)
+(* reset_heartbeat_timer :254-263 *)
 Definition reset_heartbeat_timer : act := fun s =>
   if hb_running s then (s, [OCancelTimer THeartbeat 0; OSched THeartbeat DHeartbeat 0])
   else (set_hb_running true s, [OSched THeartbeat DHeartbeat 0]).
 
-(* on_join_complete :819-844 *)
+(* on_join_complete :833-858 *)
 Fixpoint start_consumers (tps : list (Z * Z)) : act :=
   match tps with
   | [] => skip
@@ -386,27 +393,27 @@ Definition with_gen (ph : gphase) (k : gen -> act) : act := fun s =>
   | None => (s, [])
   end.
 
-Definition coord_retry (d : delay) : act := new_timer TCoordRetry d (fun _ s => s).    (* :135-138, :143-146 *)
+Definition coord_retry (d : delay) : act := new_timer TCoordRetry d (fun _ s => s).    (* :137-140, :145-148 *)
 
 Definition on_lookup (rid : Z) (r : lookup_res) : act :=
   with_gen (GLookup rid) (fun g =>
     match r with
-    | LBroker => fresh_rid (fun rid' s => (add_gen (mkGen (g_id g) (GMeta rid')) s, [OMeta rid']))     (* :151-153 *)
-    | LNone => coord_retry DInitial ;; gen_end                                                          (* :142-147, :461-462 *)
+    | LBroker => fresh_rid (fun rid' s => (add_gen (mkGen (g_id g) (GMeta rid')) s, [OMeta rid']))     (* :153-155 *)
+    | LNone => coord_retry DInitial ;; gen_end                                                          (* :144-149, :471-472 *)
     | LFail k =>
         match k with
-        | KCna | KNotCoord => coord_retry DInitial ;; gen_end                                           (* :118-128 *)
+        | KCna | KNotCoord => coord_retry DInitial ;; gen_end                                           (* :120-130 *)
         | KTimeout => coord_retry DFatal ;; gen_end
-        | KCancelled | KNonKafka => gen_fail k                                                          (* :132-133 *)
-        | _ => coord_retry DFatal ;; gen_end                                                            (* :129-131 *)
+        | KCancelled | KNonKafka => gen_fail k                                                          (* :134-135 *)
+        | _ => coord_retry DFatal ;; gen_end                                                            (* :131-133 *)
         end
     end).
 
 Definition on_meta (rid : Z) (r : simple_res) : act :=
   with_gen (GMeta rid) (fun g =>
     match r with
-    | ROk => fun s => if stopping s then gen_end s                                                      (* :461-462 *)
-                      else prepare_and_join (g_id g) (set_coord_known true s)                           (* :463-467 *)
+    | ROk => fun s => if stop_pend s then gen_end s                                                     (* :471-472 *)
+                      else prepare_and_join (g_id g) (set_coord_known true s)                           (* :473-479 *)
     | RFail k => gen_fail k
     end).
 
@@ -414,38 +421,38 @@ Definition on_join (rid : Z) (r : join_res) : act :=
   with_gen (GJoin rid) (fun g =>
     match r with
     | JOk gn mem role =>
-        upd (fun s => set_cur_assign [] (set_generation gn (set_member mem s))) ;;                      (* :168-172 *)
-        (fun s => if stopping s then gen_end s                                                          (* :468-470 *)
-                  else if role =? 0 then send_sync (g_id g) false s                                     (* :477-478, :491-492 *)
+        upd (fun s => set_cur_assign [] (set_generation gn (set_member mem s))) ;;                      (* :170-174 *)
+        (fun s => if stop_pend s then gen_end s                                                         (* :480-482 *)
+                  else if role =? 0 then send_sync (g_id g) false s                                     (* :489-490, :505-506 *)
                   else if role =? 1 then
-                         fresh_rid (fun rid' s => (add_gen (mkGen (g_id g) (GParts rid')) s, [OParts rid'])) s   (* :479-485 *)
-                  else gen_fail KNonKafka s)                                                            (* :480 raises *)
-    | JFail k => rejoin_after_error k ;; gen_end                                                        (* :185, :468-470 *)
+                         fresh_rid (fun rid' s => (add_gen (mkGen (g_id g) (GParts rid')) s, [OParts rid'])) s   (* :491-497 *)
+                  else gen_fail KNonKafka s)                                                            (* :492 raises *)
+    | JFail k => rejoin_after_error k ;; gen_end                                                        (* :187, :480-482 *)
     end).
 
 Definition on_parts (rid : Z) (r : parts_res) : act :=
   with_gen (GParts rid) (fun g =>
     match r with
-    | POk => send_sync (g_id g) true                                                                    (* :486-492 *)
-    | PMissing => gen_fail KNonKafka                                                                    (* :486 raises _NeedTopicPartitions again *)
+    | POk => fun s => if stop_pend s then gen_end s else send_sync (g_id g) true s                      (* :498-506 *)
+    | PMissing => gen_fail KNonKafka                                                                    (* :498 raises _NeedTopicPartitions again *)
     | PFail k => gen_fail k
     end).
 
 Definition on_sync (rid : Z) (r : sync_res) : act :=
   with_gen (GSync rid) (fun g =>
     match r with
-    | SFail k => rejoin_after_error k ;; gen_end                                                        (* :204, :493-495 *)
+    | SFail k => rejoin_after_error k ;; gen_end                                                        (* :206, :507-509 *)
     | _ => fun s =>
-        if stopping s then gen_end s                                                                    (* :493-495 *)
+        if stop_pend s then gen_end s                                                                   (* :507-509 *)
         else match r with
-             | SOk asg => (upd (set_cur_assign asg) ;; reset_heartbeat_timer ;;                         (* :499-500 *)
-                           upd (set_rejoin_needed false) ;; on_join_complete asg ;; gen_end) s          (* :501-504 *)
-             | SBadNonKafka => gen_fail KNonKafka s                                                     (* :499 raises *)
+             | SOk asg => (upd (set_cur_assign asg) ;; reset_heartbeat_timer ;;                         (* :513-514 *)
+                           upd (set_rejoin_needed false) ;; on_join_complete asg ;; gen_end) s          (* :515-518 *)
+             | SBadNonKafka => gen_fail KNonKafka s                                                     (* :513 raises *)
              | _ => gen_fail KOtherKafka s
              end
     end).
 
-(* LoopingCall.__call__ -> _heartbeat :309-323 *)
+(* LoopingCall.__call__ -> _heartbeat :311-325 *)
 Definition on_tick : act := fun s =>
   if hb_running s then
     if stopping s || rejoin_needed s || (match hb_req s with Some _ => true | None => false end)
@@ -461,8 +468,8 @@ Definition on_hb_reply (rid : Z) (r : simple_res) : act := fun s =>
       if rid' =? rid then
         let s := set_hb_req None s in
         match r with
-        | ROk => (s, [])                                                                                (* :325-328 *)
-        | RFail k => if hb_running s then (hb_stop ;; rejoin_after_error k) s                           (* :330-333 *)
+        | ROk => (s, [])                                                                                (* :327-330 *)
+        | RFail k => if hb_running s then (hb_stop ;; rejoin_after_error k) s                           (* :332-335 *)
                      else (s, [])                                       (* LoopingCall.stop asserts: the errback raises, nothing else runs *)
         end
       else (s, [])
@@ -482,13 +489,13 @@ Definition on_leave (rid : Z) (r : simple_res) : act := fun s =>
   | Some (st, rest) =>
       let s := set_stops rest s in
       let s := match r with
-               | ROk => set_cur_assign [] (set_generation (-1) (set_member 0 s))                        (* :214-217 *)
-               | RFail _ => s end in                                                                    (* :289-290 *)
+               | ROk => set_cur_assign [] (set_generation (-1) (set_member 0 s))                        (* :216-219 *)
+               | RFail _ => s end in                                                                    (* :291-292 *)
       stop_tail st s
   | None => (s, [])
   end.
 
-(* consumer start Deferred fails -> on_consumer_error :846-862 *)
+(* consumer start Deferred fails -> on_consumer_error :860-876 *)
 Definition gen_fail_c (cid : Z) (g : gen) : gen :=
   match g_ph g with GPrepare l => mkGen (g_id g) (GPrepare (sh_fail cid l)) | _ => g end.
 Definition stop_fail_c (cid : Z) (st : stopi) : stopi :=
@@ -504,28 +511,31 @@ Definition on_cfail (cid : Z) (k : ekind) : act := fun s =>
     let s := set_stops (map (stop_fail_c cid) (stops s))
                (set_gens (map (gen_fail_c cid) (gens s)) (set_consumers (map (c_fail cid) (consumers s)) s)) in
     match k, consumers s with
-    | KCancelled, [] => (s, [])                                                                         (* :858-860 *)
-    | _, _ => rejoin_after_error k s                                                                    (* :862 *)
+    | KCancelled, [] => (s, [])                                                                         (* :872-874 *)
+    | _, _ => rejoin_after_error k s                                                                    (* :876 *)
     end
   else (s, []).
 
-(* a consumer's shutdown Deferred fires: the DeferredList of :767 *)
+(* :477-479: on_join_prepare's Deferred fired *)
+Definition after_prepare (gid : Z) : act := fun s => if stop_pend s then gen_end s else send_join gid s.
+
+(* a consumer's shutdown Deferred fires: the DeferredList of :781 *)
 Definition on_cshut (cid : Z) (ok : bool) : act := fun s =>
   match take_first (fun g => sh_has cid (gen_list g)) (gens s) with
   | Some (g, rest) =>
       let l := gen_list g in
       if ok then
         let l' := sh_mark_done cid l in
-        if sh_all_done l' then send_join (g_id g) (set_gens rest s)                                     (* :779, :467 *)
+        if sh_all_done l' then after_prepare (g_id g) (set_gens rest s)                                 (* :793, :477-479 *)
         else (set_gens (mkGen (g_id g) (GPrepare l') :: rest) s, [])
-      else (emits (stop_pending (sh_mark_done cid l)) ;; send_join (g_id g)) (set_gens rest s)          (* :768-778, :467 *)
+      else (emits (stop_pending (sh_mark_done cid l)) ;; after_prepare (g_id g)) (set_gens rest s)      (* :782-792, :477-479 *)
   | None =>
       match take_first (fun st => sh_has cid (stop_list st)) (stops s) with
       | Some (st, rest) =>
           let l := stop_list st in
           if ok then
             let l' := sh_mark_done cid l in
-            if sh_all_done l' then coord_stop st (set_stops rest s)                                     (* :877 *)
+            if sh_all_done l' then coord_stop st (set_stops rest s)                                     (* :891 *)
             else (set_stops (mkStop (st_idx st) (st_err st) (S1 l') :: rest) s, [])
           else (emits (stop_pending (sh_mark_done cid l)) ;; coord_stop st) (set_stops rest s)
       | None => (s, [])
@@ -539,7 +549,7 @@ Definition is_stopd (idx : Z) (o : output) : bool := match o with OStopD i _ => 
 
 Definition step (s : state) (e : event) : state * list output :=
   match e with
-  | EStart =>                                                                                           (* :243-250 *)
+  | EStart =>                                                                                           (* :245-252 *)
       match start_d s with
       | Some _ => (s, [OApi 1])
       | None => let (s', o) := join_and_sync (set_n_start (n_start s + 1) (set_start_d (Some (n_start s)) s)) in
@@ -648,7 +658,7 @@ Definition enc_out (o : output) : list Z :=
   | OSync rid g m l => [5; rid; g; m; if l then 1 else 0]
   | OHeartbeat rid g m => [6; rid; g; m] | OLeave rid m => [7; rid; m]
   | OSched k d id => [8; Z_of_tclass k; Z_of_delay d; id] | OCancelTimer k id => [9; Z_of_tclass k; id]
-  | OStartC cid t p g m => [10; cid; t; p; g; m; 1]       (* start(OFFSET_COMMITTED), :842 *)
+  | OStartC cid t p g m => [10; cid; t; p; g; m; 1]       (* start(OFFSET_COMMITTED), :856 *)
   | OShutC cid => [11; cid] | OStopC cid => [12; cid]
   | OStartD idx r => [13; idx; match r with None => 0 | Some k => 100 + Z_of_kind k end]
   | OStopD idx c => [14; idx; c] | OApi c => [15; c] | OReset => [16] | OCancelReq rid => [17; rid]
